@@ -11,7 +11,9 @@ git -C "$WT" apply "$DST/patch.diff" || { echo "PATCH DOES NOT APPLY" | tee -a "
 export CARGO_NET_OFFLINE=true
 sed -i '/^done$/d' "$LOG"
 ( cd "$WT" && CARGO_TARGET_DIR="$WT/target" cargo nextest run --workspace --no-fail-fast --tool-config-file pb:/w/lib/nextest.toml --profile pb --test-threads 2 --offline "$@" ) > "$DST/rerun.log" 2>&1
-PASSED="$(grep -E '^\s+PASS' "$DST/rerun.log" | awk '{print $NF}' | sort -u | tr '\n' ' ')"
+# the nextest profile prints no per-test PASS lines: all requested tests passed iff the summary says "N tests run: N passed"
+PASSED=""; SUMLINE="$(grep -E 'Summary' "$DST/rerun.log" | tail -1)"
+if echo "$SUMLINE" | grep -Eq '([0-9]+) tests? run: \1 passed'; then PASSED="$*"; fi
 echo "rerun of tests that timed out under load: $(grep -E 'Summary' "$DST/rerun.log" | tail -1); passed: $PASSED" | tee -a "$LOG"
 echo done >> "$LOG"
 git -C "$WT" checkout -q -- .
